@@ -75,8 +75,36 @@ func init() {
 			}
 			tk = append(tk, t)
 		}
+		_, af, err := ParseDir(repo, "internal/ast")
+		if err != nil {
+			return "", err
+		}
+		// special variables: the untyped iota block starting with V_ILLEGAL
+		var specials []string
+		for _, n := range SortedNames(af) {
+			for _, d := range af[n].Decls {
+				gd, ok := d.(*ast.GenDecl)
+				if !ok || gd.Tok != token.CONST || len(gd.Specs) == 0 {
+					continue
+				}
+				if first := gd.Specs[0].(*ast.ValueSpec); first.Names[0].Name != "V_ILLEGAL" {
+					continue
+				}
+				for _, s := range gd.Specs {
+					vs := s.(*ast.ValueSpec)
+					if len(vs.Values) > 0 && vs.Names[0].Name != "V_ILLEGAL" {
+						continue // V_LAST = V_SUBSEP
+					}
+					specials = append(specials, vs.Names[0].Name)
+				}
+			}
+		}
+		if len(specials) < 10 {
+			return "", fmt.Errorf("could not find the V_ special-variable const block")
+		}
 		var sb strings.Builder
 		sb.WriteString("From Coq Require Import List String.\nImport ListNotations.\nOpen Scope string_scope.\n")
+		sb.WriteString(coqStringList("special_names", specials))
 		sb.WriteString(coqStringList("opcode_names", ops))
 		sb.WriteString(coqStringList("augop_names", aug))
 		sb.WriteString(coqStringList("builtinop_names", bi))
